@@ -469,11 +469,14 @@ fn gen_ops(r: &mut Rng, stream: &[u8], core_only: bool, drain: bool) -> Vec<Op> 
     match r.below(8) {
         0 => { let a = 16 + r.below(30) as usize; ops.push(Op::Slice(a)); ops.push(Op::Slice(a + 1 + r.below(40) as usize)); }
         1 => { ops.push(Op::Slice(1 + r.below(8) as usize)); ops.push(Op::Array(*r.pick(&ARR[1..20]))); }
-        2 => { ops.push(Op::Slice(1 + r.below(5) as usize)); for _ in 0..r.below(300) { ops.push(Op::U8); } }
+        2 => { ops.push(Op::Slice(1 + r.below(5) as usize)); for _ in 0..r.below(300).min(stream.len() as u64 + 2) { ops.push(Op::U8); } }
         _ => {}
     }
     while ops.len() < n {
-        let rem = if r.chance(1, 3) { remaining(stream, &ops) } else { stream.len() / 2 };
+        let rem = remaining(stream, &ops);
+        // once the stream is exhausted only a few more operations are interesting
+        if rem == 0 && ops.len() >= 2 && r.chance(2, 3) { break; }
+        let rem = if r.chance(1, 2) { rem } else { stream.len() / 2 };
         let op = match r.below(100) {
             0..=11 => Op::U8,
             12..=19 => Op::Peek,
@@ -535,6 +538,39 @@ fn boundary_cases() -> Vec<(Vec<Vec<u8>>, Vec<Op>)> {
     v
 }
 
+/// input distribution of the correspondence stream (reported in the evidence)
+#[derive(Default)]
+struct Stats { cases: usize, ops: usize, by_op: std::collections::BTreeMap<String, usize>, by_res: std::collections::BTreeMap<String, usize>,
+    sticky: usize, early_empty: usize, one_byte_chunks: usize, single_chunk: usize, chunk_gt_256: usize, straddle_256: usize, stream_ge_256: usize, max_ops: usize }
+impl Stats {
+    fn add(&mut self, chunks: &[Vec<u8>], ops: &[Op], res: &[Res]) {
+        self.cases += 1;
+        self.ops += ops.len();
+        self.max_ops = self.max_ops.max(ops.len());
+        for o in ops {
+            let k: String = o.show().chars().take_while(|c| !c.is_ascii_digit()).collect();
+            let k = if matches!(o, Op::U8 | Op::U16 | Op::U32 | Op::U64 | Op::U128) { o.show() } else { k };
+            *self.by_op.entry(k).or_insert(0) += 1;
+        }
+        for r in res {
+            let k = if r.0.starts_with("ok") || r.0 == "t" || r.0 == "f" { "ok".to_string() } else { r.0.clone() };
+            *self.by_res.entry(k).or_insert(0) += 1;
+        }
+        if sticky(chunks) { self.sticky += 1 } else { self.early_empty += 1 }
+        let total: usize = chunks.iter().map(|c| c.len()).sum();
+        if total >= 256 { self.stream_ge_256 += 1 }
+        if chunks.len() > 1 && chunks.iter().all(|c| c.len() <= 1) { self.one_byte_chunks += 1 }
+        if chunks.iter().filter(|c| !c.is_empty()).count() == 1 { self.single_chunk += 1 }
+        if chunks.iter().any(|c| c.len() > 256) { self.chunk_gt_256 += 1 }
+        if chunks.iter().any(|c| c.len() >= 250 && c.len() <= 262) { self.straddle_256 += 1 }
+    }
+    fn json(&self) -> String {
+        let m = |m: &std::collections::BTreeMap<String, usize>| m.iter().map(|(k, v)| format!("{}:{}", jstr(k), v)).collect::<Vec<_>>().join(",");
+        format!("{{\"cases\":{},\"ops\":{},\"max_ops_per_case\":{},\"by_op\":{{{}}},\"by_result\":{{{}}},\"sticky_eof_sources\":{},\"sources_with_empty_read_before_eof\":{},\"all_chunks_1_byte\":{},\"single_chunk\":{},\"some_chunk_gt_256\":{},\"some_chunk_250_to_262\":{},\"stream_ge_256_bytes\":{}}}",
+            self.cases, self.ops, self.max_ops, m(&self.by_op), m(&self.by_res), self.sticky, self.early_empty, self.one_byte_chunks, self.single_chunk, self.chunk_gt_256, self.straddle_256, self.stream_ge_256)
+    }
+}
+
 fn main() {
     silence_panics();
     let args: Vec<String> = std::env::args().collect();
@@ -562,10 +598,18 @@ fn main() {
                 let empties = match r.below(10) { 0..=3 => 0, 4..=5 => 1, _ => 2 };
                 cases.push(gen_case(&mut r, empties, false));
             }
-            for (chunks, ops) in cases.iter().take(n.max(1)) {
+            let mut st = Stats::default();
+            for (i, (chunks, ops)) in cases.iter().take(n.max(1)).enumerate() {
                 let (ra, _, _) = run_adapter(chunks, ops);
+                st.add(chunks, ops, &ra);
                 println!("{} {} {} => {}", prof, show_chunks(chunks), show_ops(ops), ra.iter().map(|x| x.0.clone()).collect::<Vec<_>>().join(";"));
+                // every fourth case also ties the SliceReader model to the real SliceReader
+                if i % 4 == 0 {
+                    let rs = run_slice(&concat(chunks), ops);
+                    println!("S {} {} => {}", show_chunks(chunks), show_ops(ops), rs.iter().map(|x| x.0.clone()).collect::<Vec<_>>().join(";"));
+                }
             }
+            println!("#stats {}", st.json());
         }
         "falsify" => {
             let seed: u64 = args.get(2).and_then(|s| s.parse().ok()).unwrap_or(1);
